@@ -105,6 +105,30 @@ def run(ctx):
                 ctx.violate(case, "attaching metadata changed other datasets of the written file",
                             {"site": "write", "what": "inert-file"}, observed=[list(x) for x in jdiff(prune_meta(t0), t1)[:3]])
                 continue
+            # (2b) changing one node's metadata *in place* changes no other node's metadata -- on a
+            #      constructed graph, on a graph that was read, and on graphs read afterwards
+            alias = None
+            for label, make in (("constructed", lambda: impl_construct(bare)), ("read", lambda: nir.read(p0))):
+                gg = make()
+                metas = meta_of(gg)
+                before = {k: copy.deepcopy(v) for k, v in metas.items()}
+                target = rng.choice(sorted(metas))
+                if not isinstance(metas[target], dict):
+                    continue
+                metas[target]["trained_with"] = "adam"
+                after = meta_of(gg)
+                leaked = [k for k in after if k != target and not compare.num_equal(before[k], after[k])]
+                later = meta_of(nir.read(p0))
+                leaked_later = [k for k in later if not compare.num_equal(later[k], {})]
+                ctx.count("inplace_" + label)
+                if leaked or leaked_later:
+                    alias = (label, target, leaked[:3], leaked_later[:3])
+                    break
+            if alias:
+                ctx.violate(case, "changing one node's metadata in place changed the metadata of other nodes "
+                            "(or of graphs read later)", {"site": "alias", "what": "inert-metadata", "graph": alias[0]},
+                            observed={"changed": alias[1], "also_changed": alias[2], "fresh_read_has_metadata": alias[3]})
+                continue
             # (3) inert: types, type check, inference
             s0, _ = run_graph_ops(bare, ["check", "infer", "check"])
             s1, _ = run_graph_ops(withm, ["check", "infer", "check"])
